@@ -552,7 +552,7 @@ fn seen_violation(sc: &Scenario, tag: &str, o: &RunObs, acceptable: &[Vec<u8>]) 
 /// Two processes at once: only what the property states for any circumstances
 /// is demanded - the file is always the previous or a complete new one, what a
 /// process uses is one of those, a readable cache is fallen back to, and a
-/// refresh that succeeded leaves a complete new file.
+/// refresh that reported success leaves a complete new file.
 fn oracle_pair(sc: &Scenario, ri: usize, a: &RunObs, b: &RunObs) -> Option<Violation> {
     let pair = sc.pair.as_ref().unwrap();
     let tag = format!(
@@ -602,11 +602,7 @@ fn oracle_pair(sc: &Scenario, ri: usize, a: &RunObs, b: &RunObs) -> Option<Viola
             ProcResult::Crashed => continue,
             _ => {}
         }
-        let newest_is_document = matches!(o.completed_200.last(), Some(id) if *id < 100_000);
         let clean = !o.faults_configured;
-        if newest_is_document && clean && !sc.cfg.no_cache_dir {
-            some_refresh_succeeded = true;
-        }
         match &o.result {
             ProcResult::Contents(Ok(c)) if sc.cfg.enabled => {
                 if !(a.before.as_ref() == Some(c) || acceptable.iter().any(|n| n == c)) {
@@ -652,19 +648,14 @@ fn oracle_pair(sc: &Scenario, ri: usize, a: &RunObs, b: &RunObs) -> Option<Viola
                     });
                 }
             }
+            // The only refresh that is known to have succeeded is one that says
+            // so. With a second process about, a transfer that completed is not
+            // enough: the other process may legitimately get in the way of what
+            // follows (a tree that sweeps old temp files, say), and then this is
+            // a failed refresh, of which the property asks only that rink still
+            // starts and falls back.
             ProcResult::Fetched(Ok(_)) => {
                 some_refresh_succeeded = true;
-            }
-            ProcResult::Fetched(Err(e)) => {
-                if newest_is_document && clean && !sc.cfg.no_cache_dir {
-                    return Some(Violation {
-                        clause: "refresh-not-persisted".into(),
-                        detail: format!(
-                            "{}: the {} process's transfer completed but --fetch-currency failed: {}",
-                            tag, who, e
-                        ),
-                    });
-                }
             }
             _ => {}
         }
@@ -673,9 +664,9 @@ fn oracle_pair(sc: &Scenario, ri: usize, a: &RunObs, b: &RunObs) -> Option<Viola
         let ok = a.after.as_ref().map(|x| acceptable.iter().any(|n| n == x)).unwrap_or(false);
         if !ok {
             return Some(Violation {
-                clause: "refresh-not-persisted".into(),
+                clause: "fetch-reported-success-without-new-cache".into(),
                 detail: format!(
-                    "{}: a refresh completed with nothing failing locally, but the cache holds {} and not a new document",
+                    "{}: --fetch-currency reported success, but the cache holds {} and not a new document",
                     tag,
                     describe(&a.after, sc)
                 ),
@@ -1630,7 +1621,7 @@ impl Harness for C20 {
             "std::fs::File stand-in: advisory locks (lock, lock_shared, try_lock, unlock) with flock(2) semantics: a lock belongs to the open file description, goes with its last handle or its process; a blocking lock lets the other process run".into(),
             "tempfile stand-in: O_EXCL create with unique names, persist = rename(2), drop = unlink; /tmp is a different file system (rename across gives EXDEV)".into(),
             "A close-delimited 200 body cut by an orderly close (or a connection closed inside the response headers) is reported as success by libcurl with the prefix (or nothing) delivered; it is generated, and the prefix must not reach the cache".into(),
-            "Two rink processes at once (not in the property's quantifier, covered by its 'whatever happens'): one file-system or transfer step is atomic with respect to the other process; only the clauses that hold for any circumstances are demanded of such a run (previous-or-complete-new file at every instant, contents used are one of those, readable cache is fallen back to, a refresh that succeeded leaves a complete new file)".into(),
+            "Two rink processes at once (not in the property's quantifier, covered by its 'whatever happens'): one file-system or transfer step is atomic with respect to the other process; only the clauses that hold for any circumstances are demanded of such a run (previous-or-complete-new file at every instant, contents used are one of those, readable cache is fallen back to, a --fetch-currency that reported success leaves a complete new file)".into(),
         ]
     }
 
